@@ -196,15 +196,16 @@ def analyse(prop, tier='quick', index=None):
             ctx.index.load_all()
         mod.check(ctx)
         minimum = getattr(mod, 'MIN_OBLIGATIONS', 1)
-        if len(ctx.obs) < minimum:
+        if len(ctx.obs) < minimum and all(o.ok for o in ctx.obs):
             raise AnalysisError(
                 'only %d obligations generated, at least %d were confirmed '
                 'by hand on the pinned tree (a rule matches nothing)' %
                 (len(ctx.obs), minimum))
         per_rule_min = getattr(mod, 'MIN_PER_RULE', {})
         for rule, need in per_rule_min.items():
-            have = len([o for o in ctx.obs if o.rule == rule])
-            if have < need:
+            mine = [o for o in ctx.obs if o.rule == rule]
+            have = len(mine)
+            if have < need and all(o.ok for o in mine):
                 raise AnalysisError(
                     'rule %s generated %d obligations, needs >= %d' %
                     (rule, have, need))
